@@ -221,7 +221,9 @@ def run(R, tier, seed, driver_ok):
                         R.case(('c03-refit', name, repr(sorted(desc.items())), X2.tobytes().hex()[:48]), True, branch='refit')
                         check_model(R, name + '[refit]', est, ret, X2, d2, None if lowrank_ok else d2, lowrank_ok, warned, case2)
                     except Exception as e:
-                        if not (name.startswith('SDML') and isinstance(e, RuntimeError)):
+                        if name.startswith('MMC') and cfg.get('diagonal') and isinstance(e, ValueError) and 'NaN' in str(e):
+                            R.count('MMC-diagonal-NaN-objective (ValueError, the documented failure clause of C14)')
+                        elif not (name.startswith('SDML') and isinstance(e, RuntimeError)):
                             R.violation(f'{name}[refit]/fit-raises/{type(e).__name__}', f'{name} refit raised {type(e).__name__}: {str(e)[:200]}', case)
     # ---- one feature: every learner (but SDML, which documents that it needs two) returns a finite (k, 1) transformation
     for name in zoo.ALL:
